@@ -74,11 +74,22 @@ class Exec(ExprMixin, SpecMixin, Engine):
                 # Class.method(self, ...) explicit base call
                 q = self.resolve(obj.x, name)
                 return self.call_qual(s, q, args[0], args[1:], kw)
+            if obj.kind == "any" and name in self.ATTACHED:
+                # functions attached to the family's classes by _module_builder
+                # (the attachment itself is checked by the obligation family
+                # `attached:*`, pyvc/attached.py)
+                q, recv_is_operand = self.ATTACHED[name]
+                recv = obj if recv_is_operand else SV("any", z3.Int("C_value_datatype"))
+                return self.call_qual(s, q, recv, args, kw)
         if f.kind == "cls":
             return self.instantiate(s, f, args)
         if f.kind == "closure":
             return self.inline(s, f.x[0], None, args, kw, closure_env=s.env)
         raise Unsupported("call of " + f.kind + " " + str(f.x)[:40])
+
+    # name -> (qualified source function, receiver is the operand itself)
+    ATTACHED = {"MERGE": ("MERGE", True),
+                "MERGE_WEIGHT": ("_AbstractNativeDataType.apply_weight", False)}
 
     def call_name(self, name, node, st):
         res = []
@@ -120,6 +131,24 @@ class Exec(ExprMixin, SpecMixin, Engine):
                     s_t.ghost["cmp_typeerror"] = True
                     outs.insert(0, (s_t, exc("TypeError")))
                 return outs
+        if name == "getattr" and len(args) in (2, 3) and args[1].kind == "str":
+            o, nm = args[0], args[1].x
+            dflt = args[2] if len(args) == 3 else None
+            if o.kind == "any" and nm in ("MERGE_DEFAULT", "MERGE", "MERGE_WEIGHT"):
+                # numeric-valued families (the scope of C12): _module_builder attaches
+                # MERGE, MERGE_WEIGHT = apply_weight, MERGE_DEFAULT = multiplication_identity
+                from .spec import NUMERIC
+                s2 = s.copy()
+                s.assume(NUMERIC(o.z))
+                s2.assume(z3.Not(NUMERIC(o.z)))
+                s2.trace.append("no %s" % nm)
+                have = SV("V", z3.Int("C_ONE")) if nm == "MERGE_DEFAULT" else SV("bmeth", None, (o, nm))
+                return [(s, have), (s2, dflt if dflt is not None else exc("AttributeError"))]
+            raise Unsupported("getattr(%s, %r)" % (o.kind, nm))
+        if name == "isinstance" and args[1].kind == "tuple" and all(c.kind == "cls" for c in args[1].x):
+            o = args[0]
+            if o.kind == "ref":
+                return [(s, mk_bool(z3.Or(*[self.isinst(s, o, c) for c in args[1].x])))]
         if name == "isinstance":
             o, c = args
             if o.kind == "ref" and c.kind == "cls":
@@ -448,7 +477,7 @@ class Exec(ExprMixin, SpecMixin, Engine):
             return self.inline(s, self.sources[q], recv, args, kw)
         raise Unsupported("call to unknown " + q)
 
-    inline_ok = set()
+    inline_ok = {"MERGE", "_AbstractNativeDataType.apply_weight", "_prepMergeIterators"}
 
     def bind_params(self, fdef, recv, args, kw, s):
         """-> dict name -> SV, evaluating defaults."""
